@@ -15,9 +15,9 @@ TB = ("Trusted base: Lean 4.33.0 kernel; axioms propext, Quot.sound, Classical.c
 
 # id -> (theorem-backed part, correspondence/search-backed part)
 TEXT = {
-    "C01": ("resolution rule of paramSingle.Build proved for every state and outcome: C01_decorator_wins (nearest decorator not on the stack is called, its stored output is delivered, never a provider's value), C01_decorated_cache, C01_cached_value and C01_provided (nearest scope with a cached value or providers, located by findProviders_value/_provs; zero only for optional), C01_nothing; cache justification (cached values are outputs of registered providers) is still correspondence-only",
+    "C01": ("resolution rule of paramSingle.Build proved for every state and outcome: C01_decorator_wins (nearest decorator not on the stack is called, its stored output is delivered, never a provider's value), C01_decorated_cache, C01_cached_value and C01_provided (nearest scope with a cached value or providers, located by findProviders_value/_provs; zero only for optional), C01_nothing, C01_invoked_once (a successful Invoke entered the invoked function exactly once, as the last thing it did); cache justification (cached values are outputs of registered providers) is still correspondence-only",
             "wiring of every argument of every executed function compared with the model on every explored program (projection: verdict class + enter events with provenance tokens), in reflect mode and in generated-source mode (declared Go functions and struct types compiled into the executor)"),
-    "C02": ("flag discipline of the whole resolver proved by induction over its mutual recursion (engine_flags): C02_once (per resolver call: at most one successful execution per constructor and per decorator, none for nodes already built or on the stack, and a successful one marks the node built), C02_once_history (whole programs: in the history of any operation sequence every constructor node has at most one successful exit — step invariant HInv, C02_step_invariant), C02_built_stays_built, C02_cached, C02_noreentry, C02_deco_cached",
+    "C02": ("flag discipline of the whole resolver proved by induction over its mutual recursion (engine_flags): C02_once (per resolver call: at most one successful execution per constructor and per decorator, none for nodes already built or on the stack, and a successful one marks the node built), C02_once_history (whole programs: in the history of any operation sequence every constructor node has at most one successful exit — step invariant HInv, C02_step_invariant), C02_built_stays_built, C02_cached, C02_noreentry, C02_deco_cached, C02_no_nesting (in the events of any Invoke an enter is directly followed by the exit of the same execution)",
             "enter/exit skeleton compared with the model; trace predicate: successful exits per function <= accepted registrations, no nested entry"),
     "C03": ("C03_passive (Scope/Provide/Decorate/Visualize/String report no event, any state) and C03_invoke_registry (the resolver never changes the registry) are proved for the model",
             "execution order and closure (only the needed functions run, dependencies complete first) compared with the model on every explored program; trace predicate pred_c03"),
@@ -29,7 +29,7 @@ TEXT = {
             "trace predicate: no token of a failed execution is ever delivered, root cause of the demanding Invoke is the first failure; traces compared with the model under a fault-heavy profile"),
     "C08": ("C08_path_only (the provider search answers only with the nearest scope on the path to the root), C08_all_providers_on_path, C08_child_path (a new child's path is the child followed by its parent's path: registrations made in ancestors before or after the child was created are equally visible), C08_tree_wf are proved; Export and graph orders are correspondence-only", "wiring across scope trees (up to 7 scopes, Export) compared with the model"),
     "C09": ("C09_keys_distinct, C09_as_only, C09_as_sound (with As a value is registered under the listed, implemented interfaces only, not its concrete type), C09_dup_single (a key already provided in the target scope or repeated within the constructor's results fails validation), C09_groups_free are proved", "wiring + acceptance of registrations compared with the model under a profile rich in names, groups and As"),
-    "C10": ("C10_members (an undecorated hard group parameter receives exactly the concatenation of the members committed in the scopes on the path to the root; shape lemma buildGroup_undecorated), C10_failure_is_group_failure are proved", "multisets received by hard group parameters compared with the model"),
+    "C10": ("C10_members (an undecorated hard group parameter receives exactly the concatenation of the members committed in the scopes on the path to the root; shape lemma buildGroup_undecorated), C10_feeders_built (when the parameter is delivered every provider of the key on the path has been built: none is skipped), C10_failure_is_group_failure are proved", "multisets received by hard group parameters compared with the model"),
     "C11": ("C11_silent (building an undecorated soft group changes no state and returns exactly the members already committed on the path), C11_soft_last are proved", "multisets received by soft group parameters and the execution skeleton compared with the model"),
     "C12": ("C12_consumer, C12_self_skipped, C12_local, C12_once, C12_one (an accepted Decorate only fills keys undecorated in that scope; a rejected one changes graph holders only) are proved; C20_deco_cached",
             "wiring with decorators at several scope levels compared with the model"),
@@ -44,7 +44,7 @@ TEXT = {
     "C18": ("C18_single_entry, C18_group_entry, C18_object_flat (declaration order), C18_as_expanded, C18_group_result, C18_error_omitted, C18_error_slot, C18_variadic_omitted, C18_rejected_untouched_decorate, C18_info_is_parse_decorate are proved", "Info structs of every Provide/Decorate/Invoke compared with the model (IDs coincide in reflect mode; generated-source mode compares distinct IDs up to an injective renaming)"),
     "C19": ("C19_can, C19_no_error_is_createGraph, C19_uninformative_error, C19_addCtor_appends (one entry per AddCtor, earlier entries kept), C19_first_failure_is_root are proved for the Dot model (createGraph/AddCtor, updateGraph, PruneSuccess in lean/DigModel/Dot.lean)",
             "K-dot: the DOT text of every Visualize (with and without VisualizeError) is parsed by a real DOT-subset parser in the harness (syntax validity, label consistency) and its structure (clusters, result nodes, parameter edges with dashed/solid, group nodes and members, failure colouring, pruning) is compared with the model; in reflect mode all constructor IDs coincide (modelled as such); the generated-source mode (batches of programs rendered as Go source and compiled into the executor) runs the same comparison with distinct constructor IDs, which is what exercises pruning"),
-    "C20": ("C20_ctor, C20_deco (exact event sequence of one execution incl. callback error and runtime), C20_error_root, C20_cached, C20_onstack, C20_deco_cached, C20_passive proved",
+    "C20": ("C20_ctor, C20_deco (exact event sequence of one execution incl. callback error and runtime), C20_error_root, C20_cached, C20_onstack, C20_deco_cached, C20_passive, C20_trace_shape (the events of any Invoke from any state are a sequence of blocks enter-exit[-callback] of constructor/decorator nodes followed by the invoked function's two events) and C20_cb_only_after_exit (every callback event sits directly behind the exit event of an execution of the same node and function: nowhere else) proved",
             "K-callback: callback events (position, error class, runtime under the mock clock) compared with the model; trace predicate pred_c20 judges the implementation's own trace"),
 }
 
